@@ -1536,6 +1536,13 @@ func (c *c3) genUnmarshal(usw *ast.SwitchStmt) {
 	arms := map[string]c3arms{}
 	for _, t := range []string{"TagByte", "TagShort", "TagInt", "TagFloat", "TagLong", "TagDouble", "TagString"} {
 		sc := c3scalars[t]
+		for _, cl := range sc.clauses { // the map destination relies on reflect.Map reaching the default clause
+			for _, k := range cl.kinds {
+				if k == "KMap" {
+					c.fail(nil, "case %s: a clause for reflect.Map is not handled by gen_map", t)
+				}
+			}
+		}
 		arms[t] = c3arms{any: c.scalarAny(sc), ty: c.scalarTy(sc), misfit: "_ <- " + c3Rd[sc.rd] + " ;; Fail eType"}
 	}
 	arms["TagEnd"] = c3arms{any: "Fail eEND", ty: "Fail eEND", misfit: "Fail eEND"}
